@@ -64,7 +64,10 @@ def make_input(src_root, recipe, klass="ReconciliationInput"):
     kw = dict(object_tree=oroot, species_lca=trees.LowestCommonAncestor(sroot), leaf_object_species=leafmap,
               costs=cost_dict(mod, recipe["costs"]))
     if "leaf_syn" in recipe:
-        kw["leaf_syntenies"] = {l: list(s) for l, s in zip(oleaves, recipe["leaf_syn"])}
+        pairs = list(zip(oleaves, recipe["leaf_syn"]))
+        if recipe.get("dict_order"):  # insertion order of the mapping (a dict need not list the leaves in tree order)
+            pairs = [pairs[i] for i in recipe["dict_order"]]
+        kw["leaf_syntenies"] = {l: list(s) for l, s in pairs}
         if recipe.get("root_syn") is not None:
             kw["leaf_syntenies"][oroot] = list(recipe["root_syn"])
         return getattr(mod, "SuperReconciliationInput")(**kw), onodes, snodes
